@@ -1360,25 +1360,44 @@ func ruleC17split(c *Ctx, r *Report) {
 		nret++
 		cons := fmt.Sprintf("pieces:from-token-stream#%d", nret)
 		bad := ""
-		seen := map[ssa.Value]bool{}
-		var walk func(v ssa.Value)
-		walk = func(v ssa.Value) {
+		// site: nil at top level; inside a package-private helper, the call of that helper in the splitter (values that
+		// are the helper's parameters stand for the call's arguments, and "inside the tokenizer loop" is asked of the call)
+		type seenKey struct {
+			v    ssa.Value
+			site *ssa.Call
+		}
+		seenAt := map[seenKey]bool{}
+		var walk func(v ssa.Value, site *ssa.Call)
+		arg := func(v ssa.Value, site *ssa.Call) (ssa.Value, *ssa.Call) {
 			v = stripValue(v)
-			if seen[v] || bad != "" {
+			if p, ok := v.(*ssa.Parameter); ok && site != nil {
+				if h := staticCallee(&site.Call); h != nil {
+					for k, q := range h.Params {
+						if q == p && k < len(site.Call.Args) {
+							return stripValue(site.Call.Args[k]), nil
+						}
+					}
+				}
+			}
+			return v, site
+		}
+		walk = func(v ssa.Value, site *ssa.Call) {
+			v, site = arg(v, site)
+			if seenAt[seenKey{v, site}] || bad != "" {
 				return
 			}
-			seen[v] = true
+			seenAt[seenKey{v, site}] = true
 			switch x := v.(type) {
 			case *ssa.Phi:
 				for _, e := range x.Edges {
-					walk(e)
+					walk(e, site)
 				}
 			case *ssa.Const:
 			case *ssa.MakeSlice:
 			case *ssa.UnOp:
 				for _, l := range phiLeaves(x) {
 					if l != ssa.Value(x) {
-						walk(l)
+						walk(l, site)
 					} else {
 						bad = "a piece list of unknown origin is returned"
 					}
@@ -1387,25 +1406,47 @@ func ruleC17split(c *Ctx, r *Report) {
 				// []string{blob} / []string{blob[:len-1]} : a one-element literal holding (a prefix of) the text
 				arr, ok := x.X.(*ssa.Alloc)
 				if !ok {
-					walk(x.X)
+					walk(x.X, site)
 					return
 				}
 				for _, e := range variadicElems(x) {
-					e = stripValue(e)
+					e, _ = arg(e, site)
 					if e == blob {
 						continue
 					}
-					if sl, ok := e.(*ssa.Slice); ok && stripValue(sl.X) == blob {
-						continue
+					if sl, ok := e.(*ssa.Slice); ok {
+						if base, _ := arg(sl.X, site); base == blob {
+							continue
+						}
 					}
 					bad = "a literal piece that is not the statement text is returned"
 				}
 				_ = arr
+			case *ssa.Extract:
+				if call, ok := x.Tuple.(*ssa.Call); ok && site == nil {
+					if h := staticCallee(&call.Call); h != nil && c.InModule(h) && len(h.Blocks) > 0 && h.Object() != nil && !h.Object().Exported() {
+						for _, hr := range returnsOf(h) {
+							hv, hz := retValues(hr, x.Index)
+							if hz {
+								continue
+							}
+							for _, v := range hv {
+								walk(v, call)
+							}
+						}
+						return
+					}
+				}
+				bad = "a piece list of unknown origin is returned"
 			case *ssa.Call:
 				if bi, ok := x.Call.Value.(*ssa.Builtin); ok && bi.Name() == "append" {
 					dom := false
+					var at ssa.Instruction = x
+					if site != nil {
+						at = site
+					}
 					for _, sc := range scans {
-						if instrDominates(sc, x) {
+						if instrDominates(sc, at) {
 							dom = true
 						}
 					}
@@ -1413,7 +1454,20 @@ func ruleC17split(c *Ctx, r *Report) {
 						bad = "pieces are appended outside the tokenizer loop: the text is split without the lexer (quotes, comments of every kind are not seen)"
 						return
 					}
-					walk(x.Call.Args[0])
+					walk(x.Call.Args[0], site)
+					return
+				}
+				if h := staticCallee(&x.Call); site == nil && h != nil && c.InModule(h) && len(h.Blocks) > 0 && h.Object() != nil && !h.Object().Exported() && h.Signature.Results().Len() == 1 {
+					// a package-private helper (appendPiece): its results are followed as if written in place
+					for _, hr := range returnsOf(h) {
+						hv, hz := retValues(hr, 0)
+						if hz {
+							continue
+						}
+						for _, v := range hv {
+							walk(v, x)
+						}
+					}
 					return
 				}
 				bad = "pieces produced by " + calleeLabel(&x.Call) + " reach the result: the text is split without the lexer, so a ';' inside a comment or literal the lexer would skip starts a new statement"
@@ -1422,7 +1476,7 @@ func ruleC17split(c *Ctx, r *Report) {
 			}
 		}
 		for _, v := range vals {
-			walk(v)
+			walk(v, nil)
 		}
 		if bad == "" {
 			r.ok(rule, name, cons, c.Pos(ret.Pos()), "the pieces returned here were cut inside the tokenizer loop (or are the whole text)")
